@@ -529,7 +529,14 @@ class TorSim(object):
             v = staged["__LeaveStreamsUnattached"]
             if v and v[0] not in ("0", "1"):
                 return (513, "Unacceptable option value: Boolean '__LeaveStreamsUnattached %s' expects 0 or 1." % v[0])
+            was = self.leave_unattached
             self.leave_unattached = bool(v) and v[0] == "1"
+            if self.leave_unattached and not was:
+                # the option only affects streams that reach the attachment point from now on; the ones
+                # already waiting for a circuit are still attached by Tor itself
+                for x in self.streams.values():
+                    if not x.circ:
+                        x.tor_may_attach = True
         return None
 
     def emit(self, evs):
